@@ -171,8 +171,19 @@ func runC04(h *H) {
 		switch k % 3 {
 		case 0:
 			v := g.vec(g.intn(10) + 1)
-			cls := g.pick("asis", "zerosum", "negsum", "cancel", "empty")
+			cls := g.pick("asis", "zerosum", "negsum", "cancel", "empty", "stored-zeros", "single")
 			switch cls {
+			case "stored-zeros":
+				// only explicitly stored zeros (one, two or three of them): the sum is zero although entries exist
+				v.Entries = v.Entries[:min(len(v.Entries), g.intn(3)+1)]
+				for i := range v.Entries {
+					v.Entries[i].Value = 0
+				}
+			case "single":
+				v.Entries = v.Entries[:min(len(v.Entries), 1)]
+				if len(v.Entries) == 1 && g.intn(3) == 0 {
+					v.Entries[0].Value = -v.Entries[0].Value
+				}
 			case "zerosum":
 				if len(v.Entries) >= 2 {
 					s := 0.0
@@ -212,9 +223,18 @@ func runC04(h *H) {
 			dim := g.intn(7) + 1
 			m := g.csm(dim, dim, g.pick("positive", "ordinary", "pow2"))
 			for i := range m.Entries {
-				switch g.intn(5) {
+				switch g.intn(6) {
 				case 0:
 					m.Entries[i] = nil
+				case 5:
+					// a row that stores only explicit zeros (a single one most of the time)
+					if len(m.Entries[i]) > 0 {
+						m.Entries[i] = m.Entries[i][:min(len(m.Entries[i]), g.intn(2)+1)]
+						for j := range m.Entries[i] {
+							m.Entries[i][j].Value = 0
+						}
+						g.count("row:stored-zeros")
+					}
 				case 1:
 					if len(m.Entries[i]) >= 2 {
 						s := 0.0
@@ -275,6 +295,12 @@ func runC04(h *H) {
 			if g.intn(3) == 0 {
 				v.Entries = nil
 				g.count("tv:zero")
+			} else if g.intn(5) == 0 && len(v.Entries) >= 1 {
+				v.Entries = v.Entries[:min(len(v.Entries), g.intn(2)+1)]
+				for i := range v.Entries {
+					v.Entries[i].Value = 0
+				}
+				g.count("tv:stored-zeros")
 			} else if g.intn(4) == 0 && len(v.Entries) >= 2 {
 				s := 0.0
 				for i := 1; i < len(v.Entries); i++ {
